@@ -151,7 +151,9 @@ Tabulated(basis, n, x) ==
 (* ---------------- the functions the library offers ---------------------- *)
 (* Every operator below is a function of the VALUES of its arguments.  How the caller stores   *)
 (* them (a scalar or a zero-dimensional array; a contiguous, strided, Fortran-ordered,         *)
-(* read-only or byte-swapped array; 0, 0.0 or -0.0) is not an argument of the specification,   *)
+(* read-only or byte-swapped array; 0, 0.0 or -0.0; integral values in an integer type of any  *)
+(* width, signed or unsigned, or as a numpy integer scalar) is not an argument of the           *)
+(* specification,                                                                              *)
 (* so the same outcome is demanded of every such way of handing the same values over.          *)
 (* f<basis>(x, m): the first m members at x.  The "split" Chebyshev basis puts a step        *)
 (* (1 for x >= 0, else 0) in front of T_0 .. T_{m-2} (m >= 2).                               *)
